@@ -62,6 +62,18 @@ def run(ctx):
         owners = sorted({_owner(fn) for fn, *_ in muts})
         ctx.ob("R07.1", "writers of running", set(owners) == {ALG + "enterStates", ALG + "interpret", ALG + "mainEventLoop"}, "",
                "GlobalData.running is assigned in: %s" % owners)
+        # interpret switches running on once, before the initial states are entered: an initial configuration that already contains
+        # a top-level <final> clears it in enterStates, and nothing may set it again
+        it = F.fn(ALG + "interpret")
+        on = [n for n in it.walk() if n.get("k") == "assign" and hirq.field_of(n["l"], NO_T) and hirq.field_of(n["l"], NO_T)[1] == "running"]
+        ctx.exact("R07.1", "assignments to running in interpret", len(on), 1)
+        ent = it.calls(ALG + "enterStates")
+        ctx.floor("R07.1", "enterStates calls in interpret", len(ent), 1)
+        idx_i = hirq.order_index(it)
+        for w in on:
+            ok = const_eval(w["r"]) is True and bool(ent) and all(idx_i[id(w)] < idx_i[id(c)] for c in ent) and not hirq.enclosing_loops(it, w)
+            ctx.ob("R07.1", site_key(it, "running = true precedes the entry of the initial states"), ok, line_of(w),
+                   "value %s; before every enterStates call of interpret: %s" % (const_eval(w["r"]), bool(ent) and all(idx_i[id(w)] < idx_i[id(c)] for c in ent)))
         # enqueue sites
         enq = en.calls(ALG + "enqueue_internal")
         ctx.exact("R07.1", "enqueue_internal sites in enterStates", len(enq), 2)
